@@ -230,15 +230,11 @@ def any_arms_rule(run, ctx):
         n += 1
         slot = H.pat_match("Insn::Backref({s})", H.pat_canon(a[0]["pat"]))
         S_ = slot.group("s") if slot else "slot"
-        need = ["let lo = state.get(%s)" % S_, "if (MAX == lo) {break 'fail}", "let hi = state.get((1 + %s))" % S_, "if (MAX == hi) {break 'fail}",
-                "let ref_text = s[lo..hi]", "let ix_end = (ix + len(ref_text))", "if !matches_literal(s,ix,ix_end,ref_text) {break 'fail}", "ix = ix_end"]
-        pos = 0
-        for nd_ in need:
-            j = c.find(nd_, pos)
-            if j < 0:
-                run.violation(fam, label, "Backref/" + nd_[:24], H.where(a[0]), "Insn::Backref must read the slot pair (slot, slot+1), fail on an unset slot, and compare the referenced text at ix; missing/misordered `%s` in %s" % (nd_, c[:200]))
-                break
-            pos = j
+        pat = ("let {lo} = state.get(%s); if (MAX == {lo}) {break 'fail}; let {hi} = state.get((1 + %s)); if (MAX == {hi}) {break 'fail}; "
+               "{*guard}let {rt} = s[{lo}..{hi}]; let {e} = (ix + len({rt})); if !matches_literal(s,ix,{e},{rt}) {break 'fail}; ix = {e}") % (S_, S_)
+        m = H.pat_match(pat, c) or H.pat_match(pat.replace("{*guard}", ""), c)
+        if not m:
+            run.violation(fam, label, "Backref/shape", H.where(a[0]), "Insn::Backref must read the slot pair (slot, slot+1), fail on an unset slot, and compare the referenced text byte-wise at ix, advancing by its length; found %s" % c[:260])
     else:
         run.violation(fam, label, "anchor-missing/Backref", H.where(fn), "anchor-missing: Backref arm")
     # BackrefExistsCondition tests the start slot 2*group
@@ -689,10 +685,32 @@ def slot_rule(run, ctx):
         if fancy is None:
             run.violation(fam, label, "get/anchor", H.where(g), "anchor-missing: CapturesImpl::Fancy arm of Captures::get")
         else:
-            c = H.canon(fancy["body"])
-            want = "let slot = (2 * %s); if (len(saves) <= slot) {return None}; let lo = saves[slot]; if (MAX == lo) {return None}; let hi = saves[(1 + slot)]; Some(Match{end:hi,start:lo,text:text})" % I
-            if c != want:
-                run.violation(fam, label, "get/shape", H.where(fancy), "Captures::get(i) must read the slot pair (2i, 2i+1), answer None beyond the slots or for an unset start; found %s" % c)
+            okp = {"beyond": 0, "unset": 0, "some": 0}
+            for p in fam_vm.fpaths(fancy["body"]):
+                v = S.ret_value(p)
+                if v is None:
+                    continue
+                lets = {ev.a: ev.b for ev in p.events if ev.kind == "let"}
+                rv = H.subst_lets(v, lets)
+                conds = [(H.subst_lets(ev.a, lets), ev.b) for ev in p.events if ev.kind == "cond"]
+                SL = "(2 * %s)" % I
+                beyond = [t for c_, t in conds if c_ == "(len(saves) <= %s)" % SL]
+                unset = [t for c_, t in conds if c_ == "(MAX == saves[%s])" % SL]
+                if rv == "None":
+                    if beyond and beyond[0]:
+                        okp["beyond"] += 1
+                    elif unset and unset[0] and beyond and not beyond[0]:
+                        okp["unset"] += 1
+                    else:
+                        run.violation(fam, label, "get/none", H.where(fancy), "Captures::get answers None on a path that is neither `slot beyond the saves` nor `start slot unset` (conditions %s)" % conds)
+                elif rv == "Some(Match{end:saves[(1 + %s)],start:saves[%s],text:text})" % (SL, SL):
+                    if not (beyond and not beyond[0] and unset and not unset[0]):
+                        run.violation(fam, label, "get/some-unguarded", H.where(fancy), "Captures::get builds a Match without having excluded `beyond the saves` and `unset start` (conditions %s)" % conds)
+                    okp["some"] += 1
+                else:
+                    run.violation(fam, label, "get/shape", H.where(fancy), "Captures::get(i) must read the slot pair (2i, 2i+1): found result %s" % rv)
+            if min(okp.values()) < 1:
+                run.violation(fam, label, "get/classes", H.where(fancy), "anchor-missing: Captures::get needs the three outcomes beyond / unset / Some (found %s)" % okp)
     ln = S.get_fn(run, ctx, "Captures::len", fam, label)
     if ln is not None:
         c = H.canon(ln["body"])
